@@ -599,6 +599,9 @@ where
             Some(data) => match data {
                 SimpleData::CharList(s) => {
                     let v = symbol_value(s);
+                    // the text is the symbol's name, as if it had been written as a literal
+                    let name = s.clone();
+                    self.data.insert_symbol(v, name);
                     self.cache_add(SimpleData::Symbol(v))
                 }
                 t => Err(DataError::from(format!("Found {:?} instead of CharList after creating a CharList.", t))),
